@@ -1147,7 +1147,7 @@ def run_edges(ctx):
     guard_cases(ctx)
 
 
-def run(ctx):
+def _run_workload(ctx):
     install()
     Sink.ctx = ctx
     rng = ctx.rng
@@ -1232,3 +1232,11 @@ LEVEL_NOTE = ('Trusted: Python json/datetime, icontract wrappers, the harness ge
               'through get()/list_details() of a finalized record, aliasing of list values between update()\'s argument '
               'and result, pickled objects of older versions.')
 TECHNIQUE = 'runtime contract monitors (icontract) on the real codecs + generator-driven round-trip / injection workload'
+
+
+def run(ctx):
+    _run_workload(ctx)
+    # thorough tier: the repository's own tests replayed under the monitors (one shard does it)
+    if not ctx.quick and ctx.shard == 0:
+        from vlib import pytest_monitors
+        pytest_monitors.run_under_monitors(ctx, 'C03/')
